@@ -34,6 +34,7 @@ def gen(ctx):
     versions = [b"0.23.5", b"0.21.11", b"x", b" ", b"0", "ä".encode(), "0.24 日本".encode(), b"1" * 5000, b"0.23.5 ", b"OK MPD 1", b"\x00", b"a\tb",
                 b"\xff", b"\xc3", b"0.2\xe4", b""]
     streams = []
+    versions += [b"v" + ch.encode() * n for ch in ("é", "音", "\U0001F600") for n in (1364, 1365, 2000, 2047, 2048)]
     for v in versions:
         streams.append(PREFIX + v + b"\n")
         streams.append(PREFIX + v + b"\nfoo: bar\nOK\n")
@@ -54,6 +55,8 @@ def gen(ctx):
     for s in streams:
         exp = classify(s)
         segs = [g.seg_whole(s), g.seg_bytes(s) if len(s) < 200 else g.seg_random(rng, s, maxlen=4096), g.seg_random(rng, s)]
+        if len(s) > 4096:
+            segs += [[s[:k], s[k:]] for k in (4094, 4095, 4096, 4097, 4098)] + [[s[i:i + 4096] for i in range(0, len(s), 4096)]]
         for seg in segs:
             for fl in ("b", "a"):
                 cases.append(g.case_line("conn", fl, 0, "eof", seg))
